@@ -193,6 +193,11 @@ ERA_ZONES = ["Europe/Moscow", "Asia/Pyongyang", "Europe/Istanbul", "America/Cara
              "Europe/Minsk", "Asia/Colombo"]
 
 
+def _zones2():
+    """the curated zones, or - in a wide run (gen_dt) - this run's sample of all tzdata names"""
+    return gen_dt.ALL_NAMED if gen_dt.WIDE else ZONES2
+
+
 def _value(r, full=False, zone_=None):
     """(spec, meta) of a DateTime in years 1000..9999 with a whole-minute offset."""
     k = r.random()
@@ -205,7 +210,7 @@ def _value(r, full=False, zone_=None):
     elif k < 0.4:
         zone = r.choice(ZONES3)
     else:
-        zone = r.choice(ZONES2)
+        zone = r.choice(_zones2())
     inst = gen_dt.pick_instant(r, zone, lo_year=1972, hi_year=2037) if r.random() < 0.8 else \
         r.randrange(tzdb.year_start_us(1000), tzdb.year_start_us(9999))
     if zone is None:
@@ -276,7 +281,7 @@ def gen(rp, rw, tier):
             for s_, m_ in twins:
                 pool.append(s_)
                 meta.append(m_)
-    zone_clock = rw.choice(ZONES2)
+    zone_clock = rw.choice(_zones2())
     clock = gen_dt.pick_instant(rw, zone_clock, lo_year=1975, hi_year=2035)
     # bias "now" to the last/first moments of a day, month or year in the zone a client will ask for
     if rw.random() < 0.6:
@@ -325,7 +330,7 @@ def gen(rp, rw, tier):
                 ops.append(["pcall", "from_format", [{"$": "r", "i": len(ops) - 1}, fmt], dict(kw, tz=gen_dt.tz_spec(tzarg))])
             elif x < 0.88:
                 fmt = rp.choice(PARTIAL)
-                z = rp.choice([zone_clock, zone_clock, rp.choice(ZONES2), "UTC"])
+                z = rp.choice([zone_clock, zone_clock, rp.choice(_zones2()), "UTC"])
                 src, sm = _value(rp, full=True)
                 if rp.random() < 0.15:
                     fmt = rp.choice(WEEKDAY_PARTIAL)
